@@ -92,6 +92,7 @@ def occurs_max(t):
 
 # ------------------------------------------------------------------------- XML
 NOISE = [None]
+NOBODY = [False]      # True: the dict documents spell 'no arguments' as {method: null}
 HEADERS = [None]      # [(class name, type expr, value), ...] written into the SOAP Header
 
 
@@ -234,6 +235,8 @@ def dict_body(method, args, fam):
             d[n] = None
         elif v is not None:
             d[n] = dict_value(t, v, fam)
+    if NOBODY[0] and not d:
+        return {method: None}
     return {method: d}
 
 
